@@ -496,12 +496,15 @@ var apiDocs = []string{
 	`<mjml><mj-body><mj-section><mj-group><mj-column><mj-text mj-class="m1">A</mj-text></mj-column><mj-column><mj-text>B</mj-text></mj-column></mj-group></mj-section></mj-body></mjml>`,
 	`<mjml><mj-body><mj-section><mj-column><mj-text>unclosed</mj-column></mj-section></mj-body></mjml>`,
 	`<mjml><mj-head><mj-attributes><mj-section background-color="#cccccc"/></mj-attributes></mj-head><mj-body><mj-section><mj-column><mj-text bogus="1">V</mj-text></mj-column></mj-section></mj-body></mjml>`,
+	`<mjml><mj-body><mj-section><mj-column><mj-carousel><mj-carousel-image src="a.png"/><mj-carousel-image src="b.png"/></mj-carousel><mj-accordion><mj-accordion-element><mj-accordion-title>Ti</mj-accordion-title><mj-accordion-text>Tx</mj-accordion-text></mj-accordion-element></mj-accordion></mj-column></mj-section></mj-body></mjml>`,
+	`<mjml><mj-body><mj-section><mj-column><mj-navbar hamburger="hamburger"><mj-navbar-link href="/a">A</mj-navbar-link></mj-navbar><mj-social><mj-social-element name="facebook" href="h">F</mj-social-element></mj-social><mj-image src="i.png" fluid-on-mobile="true"/></mj-column></mj-section></mj-body></mjml>`,
 }
 
 const (
-	apiOkBits  = "11101"
-	apiValBits = "00001"
-	apiAttrs   = "1,2,0,0,3"
+	apiOkBits    = "1110111"
+	apiValBits   = "0000100"
+	apiStateBits = "0000000" // no document's tree carries render-to-render state (after the carousel-CSS fix)
+	apiAttrs     = "1,2,0,0,3,0,0"
 )
 
 func runC08(res *Result, tier string, seed int64, replay string) {
@@ -576,7 +579,7 @@ func runC08(res *Result, tier string, seed int64, replay string) {
 					for d2 := range apiDocs {
 						h := []string{fmt.Sprintf("%c%d", k1, d1), fmt.Sprintf("%c%d", k2, d2)}
 						if k1 == 'N' {
-							h = append(h, "T0")
+							h = append(h, "T0", "T0")
 						}
 						hists = append(hists, h)
 					}
@@ -589,7 +592,7 @@ func runC08(res *Result, tier string, seed int64, replay string) {
 			var h []string
 			trees := 0
 			for j := 0; j < L; j++ {
-				k := "RRCDWFFNNT"[r.Intn(10)]
+				k := "RRCDWFFNNTTT"[r.Intn(12)]
 				if k == 'T' {
 					if trees == 0 {
 						k = 'N'
@@ -617,7 +620,7 @@ func runC08(res *Result, tier string, seed int64, replay string) {
 				mops[j] = "R" + o[1:]
 			}
 		}
-		pred, err := drv.Ask("api " + apiOkBits + " " + apiValBits + " " + apiAttrs + " " + strings.Join(mops, " "))
+		pred, err := drv.Ask("api " + apiOkBits + " " + apiValBits + " " + apiStateBits + " " + apiAttrs + " " + strings.Join(mops, " "))
 		preds := strings.Fields(pred)
 		if err != nil || len(preds) != len(h) {
 			res.Disagree(Violation{Sig: "driver-bad-output", What: fmt.Sprint(err, pred)})
@@ -661,6 +664,14 @@ func runC08(res *Result, tier string, seed int64, replay string) {
 				d, _ := strconv.Atoi(p[1])
 				want := treeFresh[d]
 				same := alphaIDs(ob.HTML) == alphaIDs(want.HTML)
+				if p[0] == "tree-again" {
+					if same {
+						res.Disagree(Violation{Sig: "api-model-mismatch|tree-again", Kind: "history", What: "model says this tree carries render-to-render state, the implementation re-rendered it identically", Input: in})
+					} else {
+						res.Violate(Violation{Sig: "history-dependent|tree-rendered-twice", Kind: "history", What: fmt.Sprintf("op %d %s: tree of doc %d rendered again differs from its first rendering", j, o, d), Input: in})
+					}
+					continue
+				}
 				if p[0] == "tree-own" && !same {
 					res.Violate(Violation{Sig: "history-dependent|tree-own-store", Kind: "history", What: fmt.Sprintf("op %d %s: tree of doc %d rendered with its own store in force, yet differs from the fresh result", j, o, d), Input: in})
 					return
